@@ -1228,6 +1228,34 @@ VARIANTS += [
          edits=[dict(file='ipa-core/src/protocol/context/dzkp_validator.rs', find='            max_multiplications_per_gate,\n            ctx.total_records(),\n            Box::new(move |batch_index| {\n                let first_record = (max_multiplications_per_gate != usize::MAX)\n                    .then(|| RecordId::from(batch_index * max_multiplications_per_gate));\n                Batch::new(first_record, max_multiplications_per_gate)\n            }),\n        );\n', replace='            max_multiplications_per_gate,\n            ctx.total_records(),\n            Box::new(move |batch_index| {\n                // With an unlimited batch size there is a single batch, and its first\n                // record is determined when the first segment is added.\n                let first_record = if max_multiplications_per_gate == usize::MAX {\n                    None\n                } else {\n                    Some(RecordId::from(batch_index * max_multiplications_per_gate))\n                };\n                Batch::new(first_record, max_multiplications_per_gate)\n            }),\n        );\n')]),
 ]
 
+VARIANTS += [
+    dict(prop="C19", name="result-built-by-extend-loop", benign=True,
+         edits=[dict(file='ipa-core/src/protocol/context/mod.rs', find='        }\n    }\n\n    Ok(r.into_iter().flatten().collect())\n}\n\n/// Provides the same functionality as [`reshard_try_stream`] on\n', replace='        }\n    }\n\n    // concatenate per-shard buckets in the ascending order of shard indices\n    let mut resharded = Vec::with_capacity(r.iter().map(Vec::len).sum());\n    for shard_records in r {\n        resharded.extend(shard_records);\n    }\n\n    Ok(resharded)\n}\n\n/// Provides the same functionality as [`reshard_try_stream`] on\n')]),
+    dict(prop="C19", name="route-yield-hoisted", benign=True,
+         edits=[dict(file='ipa-core/src/protocol/context/mod.rs', find='\n                    let dest_shard = shard_picker(ctx, RecordId::from(*i), &val);\n                    *i += 1;\n                    if dest_shard == my_shard {\n                        Ok(Some(((my_shard, Some(val)), (input, send_channels, i))))\n                    } else {\n                        let (record_id, se) = send_channels.get_mut(&dest_shard).unwrap();\n                        se.send(*record_id, val)\n                            .await\n                            .map_err(crate::error::Error::from)?;\n                        *record_id += 1;\n                        Ok(Some(((my_shard, None), (input, send_channels, i))))\n                    }\n                } else {\n                    for (last_record, send_channel) in send_channels.values() {\n                        send_channel.close(*last_record).await;\n', replace='\n                    let dest_shard = shard_picker(ctx, RecordId::from(*i), &val);\n                    *i += 1;\n                    // `Some` if the record stays on this shard, `None` if it has been sent out.\n                    let kept = if dest_shard == my_shard {\n                        Some(val)\n                    } else {\n                        let (record_id, se) = send_channels.get_mut(&dest_shard).unwrap();\n                        se.send(*record_id, val)\n                            .await\n                            .map_err(crate::error::Error::from)?;\n                        *record_id += 1;\n                        None\n                    };\n                    Ok(Some(((my_shard, kept), (input, send_channels, i))))\n                } else {\n                    for (last_record, send_channel) in send_channels.values() {\n                        send_channel.close(*last_record).await;\n')]),
+    dict(prop="C19", name="result-buckets-reversed", expect=["ORDER", "flatten-in-shard-order"],
+         edits=[dict(file='ipa-core/src/protocol/context/mod.rs', find="    Ok(r.into_iter().flatten().collect())\n", replace="    Ok(r.into_iter().rev().flatten().collect())\n")]),
+]
+
+VARIANTS += [
+    dict(prop="C14", name="take-early-return-was-full", benign=True,
+         edits=[dict(file='ipa-core/src/helpers/buffers/ordering_sender.rs', find="    }\n\n    fn take(&mut self, cx: &Context<'_>) -> Poll<Vec<u8>> {\n        if self.buf.can_read() {\n            let can_write = self.buf.can_write();\n            let next = self.buf.take();\n\n            if !can_write {\n                // We are ready to unblock writers by taking some data that we know is there off\n                // the buffer\n                Self::wake(&mut self.write_ready);\n            }\n\n            Poll::Ready(next)\n        } else {\n            Self::save_waker(&mut self.stream_ready, cx);\n            Poll::Pending\n        }\n    }\n\n    fn close(&mut self) {\n", replace="    }\n\n    fn take(&mut self, cx: &Context<'_>) -> Poll<Vec<u8>> {\n        if !self.buf.can_read() {\n            Self::save_waker(&mut self.stream_ready, cx);\n            return Poll::Pending;\n        }\n\n        let was_full = !self.buf.can_write();\n        let next = self.buf.take();\n\n        if was_full {\n            // We are ready to unblock writers by taking some data that we know is there off\n            // the buffer\n            Self::wake(&mut self.write_ready);\n        }\n\n        Poll::Ready(next)\n    }\n\n    fn close(&mut self) {\n")]),
+    dict(prop="C14", name="woken-at-method-max", benign=True,
+         edits=[dict(file='ipa-core/src/helpers/buffers/ordering_sender.rs', find='    fn wake(&mut self, i: usize) {\n        // Waking thread may have lost the race and got the lock after the successful write\n        // to the next element. Moving `woken_at` back will introduce a concurrency bug.\n        self.woken_at = std::cmp::max(self.woken_at, i);\n\n        if let Some(idx) = self\n            .wakers\n            .iter()\n            .take_while(|wi| wi.i <= i)\n            .position(|wi| wi.i == i)\n        {\n            // We only save one waker at each index, but if a future is polled without\n            // this function having to wake the task, it will sit here.  Clean those out.\n            drop(self.wakers.drain(0..idx));\n            self.wakers.pop_front().unwrap().w.wake();\n        }\n    }\n\n', replace='    fn wake(&mut self, i: usize) {\n        // Waking thread may have lost the race and got the lock after the successful write\n        // to the next element. Moving `woken_at` back will introduce a concurrency bug.\n        self.woken_at = self.woken_at.max(i);\n\n        let found = self\n            .wakers\n            .iter()\n            .take_while(|item| item.i <= i)\n            .position(|item| item.i == i);\n        if let Some(idx) = found {\n            // We only save one waker at each index, but if a future is polled without\n            // this function having to wake the task, it will sit here.  Clean those out.\n            drop(self.wakers.drain(0..idx));\n            let item = self\n                .wakers\n                .pop_front()\n                .expect("a waker for this index was just found");\n            item.w.wake();\n        }\n    }\n\n')]),
+    dict(prop="C14", name="take-range-into-inner", benign=True,
+         edits=[dict(file='ipa-core/src/helpers/buffers/circular.rs', find='        }\n\n        // Capacity is always a multiple of write_size, so delta is always aligned.\n        let delta = std::cmp::min(self.read_size, self.len());\n\n        let mut ret = Vec::with_capacity(delta);\n        let range = self.range(self.read, delta);\n\n        // If the read range wraps around, we need to split it\n        if range.end() < range.start() {\n            ret.extend_from_slice(&self.data[*range.start()..]);\n            ret.extend_from_slice(&self.data[..=*range.end()]);\n        } else {\n            ret.extend_from_slice(&self.data[range]);\n        }\n\n        self.read = self.inc(self.read, delta);\n', replace='        }\n\n        // Capacity is always a multiple of write_size, so delta is always aligned.\n        let delta = self.read_size.min(self.len());\n\n        let mut ret = Vec::with_capacity(delta);\n        let (first, last) = self.range(self.read, delta).into_inner();\n\n        // If the read range wraps around, we need to split it\n        if last < first {\n            ret.extend_from_slice(&self.data[first..]);\n            ret.extend_from_slice(&self.data[..=last]);\n        } else {\n            ret.extend_from_slice(&self.data[first..=last]);\n        }\n\n        self.read = self.inc(self.read, delta);\n')]),
+    dict(prop="C14", name="len-by-checked-sub", benign=True,
+         edits=[dict(file='ipa-core/src/helpers/buffers/circular.rs', find='        // It works well for power-of-two sizes, but for arbitrary\n        // buffer capacity, it is easier to use N - (a - b) because\n        // write is always ahead of read.\n        if self.write >= self.read {\n            self.wrap(self.write - self.read)\n        } else {\n            self.capacity() + self.mask(self.write) - self.mask(self.read)\n        }\n    }\n\n', replace='        // It works well for power-of-two sizes, but for arbitrary\n        // buffer capacity, it is easier to use N - (a - b) because\n        // write is always ahead of read.\n        match self.write.checked_sub(self.read) {\n            // `write >= read`\n            Some(distance) => self.wrap(distance),\n            // `write < read`: the write pointer has wrapped around `2 * capacity`.\n            None => self.capacity() + self.mask(self.write) - self.mask(self.read),\n        }\n    }\n\n')]),
+    dict(prop="C14", name="poll-next-deliver-helper", benign=True,
+         edits=[dict(file='ipa-core/src/helpers/buffers/unordered_receiver.rs', find="        }\n    }\n\n    /// Poll for the next record.  This should only be invoked when\n    /// the future for the next message is polled.\n    fn poll_next<M: Message>(&mut self, cx: &mut Context<'_>) -> Poll<Result<M, Error>> {\n        self.max_polled_idx = std::cmp::max(self.max_polled_idx, Some(self.next));\n        if let Some(m) = self.spare.read() {\n            self.wake_next();\n            return Poll::Ready(m.map_err(|e| DeserializeError::new::<M>(self.next, e).into()));\n        }\n\n        loop {\n", replace="        }\n    }\n\n    /// Hand a message that was just read off the stream to the caller, after advancing the\n    /// read cursor and waking the receiver for the following record.\n    fn deliver<M: Message>(\n        &mut self,\n        m: Result<M, M::DeserializationError>,\n    ) -> Poll<Result<M, Error>> {\n        self.wake_next();\n        Poll::Ready(m.map_err(|e| DeserializeError::new::<M>(self.next, e).into()))\n    }\n\n    /// Poll for the next record.  This should only be invoked when\n    /// the future for the next message is polled.\n    fn poll_next<M: Message>(&mut self, cx: &mut Context<'_>) -> Poll<Result<M, Error>> {\n        self.max_polled_idx = std::cmp::max(self.max_polled_idx, Some(self.next));\n        if let Some(m) = self.spare.read() {\n            return self.deliver(m);\n        }\n\n        loop {\n"), dict(file='ipa-core/src/helpers/buffers/unordered_receiver.rs', find='                    let b = b.as_ref();\n                    tracing::trace!(len = b.len(), "next chunk");\n                    if let Some(m) = self.spare.extend(b) {\n                        self.wake_next();\n                        return Poll::Ready(\n                            m.map_err(|e| DeserializeError::new::<M>(self.next, e).into()),\n                        );\n                    }\n                }\n                Poll::Ready(None) => {\n', replace='                    let b = b.as_ref();\n                    tracing::trace!(len = b.len(), "next chunk");\n                    if let Some(m) = self.spare.extend(b) {\n                        return self.deliver(m);\n                    }\n                }\n                Poll::Ready(None) => {\n')]),
+    dict(prop="C14", name="waiting-add-rposition", benign=True,
+         edits=[dict(file='ipa-core/src/helpers/buffers/ordering_sender.rs', find="            // this means this thread is out of sync and there was an update to channel's current\n            // position. Accepting a waker could mean it will never be awakened. Rejecting this operation\n            // will let the current thread to read the position again.\n            Err(())?;\n        }\n\n        // Each new addition will tend to have a larger index, so search backwards and\n        // replace an equal index or insert after a smaller index.\n        // TODO: consider a binary search if the item cannot be added to the end.\n        let item = WakerItem { i, w: w.clone() };\n        for j in (0..self.wakers.len()).rev() {\n            match self.wakers[j].i.cmp(&i) {\n                Ordering::Greater => (),\n                Ordering::Equal => {\n                    self.wakers[j] = item;\n                    return Ok(());\n                }\n                Ordering::Less => {\n                    self.wakers.insert(j + 1, item);\n                    return Ok(());\n                }\n            }\n        }\n        self.wakers.insert(0, item);\n        Ok(())\n    }\n\n", replace="            // this means this thread is out of sync and there was an update to channel's current\n            // position. Accepting a waker could mean it will never be awakened. Rejecting this operation\n            // will let the current thread to read the position again.\n            return Err(());\n        }\n\n        // Each new addition will tend to have a larger index, so search backwards and\n        // replace an equal index or insert after a smaller index.\n        // TODO: consider a binary search if the item cannot be added to the end.\n        let item = WakerItem { i, w: w.clone() };\n        match self.wakers.iter().rposition(|saved| saved.i <= i) {\n            Some(j) if self.wakers[j].i == i => self.wakers[j] = item,\n            Some(j) => self.wakers.insert(j + 1, item),\n            None => self.wakers.insert(0, item),\n        }\n        Ok(())\n    }\n\n")]),
+    dict(prop="C19", name="splitter-with-map-closures", benign=True,
+         edits=[dict(file='ipa-core/src/query/runner/reshard_tag.rs', find="\n    fn poll_next(self: Pin<&mut Self>, cx: &mut Context<'_>) -> Poll<Option<Self::Item>> {\n        let this = self.project();\n        match ready!(this.inner.poll_next(cx)) {\n            Some(Ok((k, a))) => {\n                this.buf.push(k);\n                Poll::Ready(Some(Ok(a)))\n            }\n            Some(Err(e)) => Poll::Ready(Some(Err(e))),\n            None => Poll::Ready(None),\n        }\n    }\n    fn size_hint(&self) -> (usize, Option<usize>) {\n        self.inner.size_hint()\n", replace="\n    fn poll_next(self: Pin<&mut Self>, cx: &mut Context<'_>) -> Poll<Option<Self::Item>> {\n        let this = self.project();\n        let next = ready!(this.inner.poll_next(cx));\n        // errors and the end of the stream are passed through as is\n        Poll::Ready(next.map(|item| {\n            item.map(|(data, tag)| {\n                this.buf.push(data);\n                tag\n            })\n        }))\n    }\n    fn size_hint(&self) -> (usize, Option<usize>) {\n        self.inner.size_hint()\n")]),
+    dict(prop="C01", name="prf-picker-named-function", benign=True,
+         edits=[dict(file='ipa-core/src/protocol/hybrid/oprf.rs', find='        replicated::{malicious, semi_honest::AdditiveShare as Replicated},\n    },\n    seq_join::{SeqJoin, seq_join},\n    utils::non_zero_prev_power_of_two,\n};\n\n', replace='        replicated::{malicious, semi_honest::AdditiveShare as Replicated},\n    },\n    seq_join::{SeqJoin, seq_join},\n    sharding::ShardIndex,\n    utils::non_zero_prev_power_of_two,\n};\n\n'), dict(file='ipa-core/src/protocol/hybrid/oprf.rs', find='        return reshard_try_stream(\n            ctx.narrow(&HybridStep::ReshardByPrf),\n            stream::iter(Vec::<Result<PrfHybridReport<BK, V>, Error>>::new()),\n            |ctx, _, report| report.match_key % ctx.shard_count(),\n        )\n        .await;\n    }\n', replace='        return reshard_try_stream(\n            ctx.narrow(&HybridStep::ReshardByPrf),\n            stream::iter(Vec::<Result<PrfHybridReport<BK, V>, Error>>::new()),\n            shard_by_prf,\n        )\n        .await;\n    }\n'), dict(file='ipa-core/src/protocol/hybrid/oprf.rs', find='    reshard_try_stream(\n        ctx.narrow(&HybridStep::ReshardByPrf),\n        report_stream,\n        |ctx, _, report| report.match_key % ctx.shard_count(),\n    )\n    .await\n}\n\n/// generates PRF key k as secret sharing over Fp25519\npub fn gen_prf_key<C, const N: usize>(ctx: &C) -> Replicated<Fp25519, N>\nwhere\n', replace='    reshard_try_stream(\n        ctx.narrow(&HybridStep::ReshardByPrf),\n        report_stream,\n        shard_by_prf,\n    )\n    .await\n}\n\n/// Selects the destination shard for a report based on its OPRF value. Reports with the\n/// same value are assigned to the same shard.\nfn shard_by_prf<C, BK, V>(ctx: C, _: RecordId, report: &PrfHybridReport<BK, V>) -> ShardIndex\nwhere\n    C: ShardedContext,\n    BK: BooleanArray,\n    V: BooleanArray,\n{\n    report.match_key % ctx.shard_count()\n}\n\n/// generates PRF key k as secret sharing over Fp25519\npub fn gen_prf_key<C, const N: usize>(ctx: &C) -> Replicated<Fp25519, N>\nwhere\n')]),
+]
+
 # rules shared between properties: the same edit must be reported under the other property too
 VARIANTS += [dict(v, prop="C05", name=v["name"] + "@C05") for v in VARIANTS
              if v["name"] in ("h1-shuffle-empty-shard-leaves", "sharded-shuffle-empty-shard-leaves", "reshard-closes-channels-on-input-error", "reshard-closes-before-matching-none")]
